@@ -346,6 +346,11 @@ class I_be_fetch_status_results:
 
     params = dict(self=None, trial_ids=None)
 
+    def requires(s):
+        # every trial the tuner started or resumed and whose run has not ended yet is polled (otherwise its results are
+        # never fetched and its end is never noticed)
+        return {"running-trials-are-polled": forall(range(0, 6), lambda t: (t in s.trial_ids) if (t < s.G.started and s.G.phase[t] == 1 and live(s.G, t)) else True)}
+
     def make_result(s):
         d = dict()
         res = []
